@@ -49,6 +49,34 @@ theorem limiter_admits_at_most_from (l : Limiter) (c : Nat) (reqs : List Req) (l
     (admittedIn (clientTrace c (l.run reqs)) lo hi : Rat) ≤ l.cfg.burst + l.cfg.rate * (hi - lo) :=
   limiter_bound c reqs l lo hi he hwf hmono htracked hlh
 
+/-- The bound with an explicit rounding term instead of exact arithmetic. `ApproxRun ε b tr`: every
+`try_consume` of the trace computed its capped token count within `ε` of the exact value (and inside
+`[0, max_tokens]`); comparison with and subtraction of `1.0` are exact. Then every closed window holds
+at most `burst + rate·(hi − lo) + ε·n` admissions, `n` = requests falling into the window. For f64
+and `burst ≤ 20`, `ε ≈ 4·2⁻⁵³·(burst+1) < 10⁻¹⁴` (three roundings: `as_secs_f64`, product, sum; a
+sum beyond `max_tokens + 1` is capped exactly). -/
+theorem bucket_admits_at_most_with_rounding (ε : Rat) (hε : 0 ≤ ε) (b : Bucket) (tr : List (Rat × Bool))
+    (lo hi : Rat) (hg : b.Good) (hrun : ApproxRun ε b tr)
+    (hmono : (b.last :: tr.map (·.1)).Pairwise (· ≤ ·)) (hlh : lo ≤ hi) :
+    (admittedIn tr lo hi : Rat) ≤ b.maxTokens + b.rate * (hi - lo) + ε * (requestsIn tr lo hi : Rat) :=
+  approx_bucket_bound ε hε tr b lo hi hg hrun (List.pairwise_cons.mp hmono).2
+    (fun p hp => (List.pairwise_cons.mp hmono).1 p.1 (List.mem_map.mpr ⟨p, hp, rfl⟩)) hlh
+
+/-- … hence at most one admission more than the exact bound while `ε·n ≤ 1` (for f64 and bursts up
+to 20: up to 10¹⁴ requests in one window). -/
+theorem bucket_admits_at_most_plus_one (ε : Rat) (hε : 0 ≤ ε) (b : Bucket) (tr : List (Rat × Bool))
+    (lo hi : Rat) (hg : b.Good) (hrun : ApproxRun ε b tr)
+    (hmono : (b.last :: tr.map (·.1)).Pairwise (· ≤ ·)) (hlh : lo ≤ hi)
+    (hsmall : ε * (requestsIn tr lo hi : Rat) ≤ 1) :
+    (admittedIn tr lo hi : Rat) ≤ b.maxTokens + b.rate * (hi - lo) + 1 :=
+  approx_bucket_bound_slack ε hε tr b lo hi hg hrun (List.pairwise_cons.mp hmono).2
+    (fun p hp => (List.pairwise_cons.mp hmono).1 p.1 (List.mem_map.mpr ⟨p, hp, rfl⟩)) hlh hsmall
+
+/-- The exact model is the case `ε = 0` (so the premise `ApproxRun` is satisfiable by every run). -/
+theorem exact_run_is_rounding_free (b : Bucket) (ts : List Rat) (hg : b.Good)
+    (hmono : (b.last :: ts).Pairwise (· ≤ ·)) : ApproxRun 0 b (b.run ts) :=
+  exact_is_approx b ts hg (List.pairwise_cons.mp hmono).2 (List.pairwise_cons.mp hmono).1
+
 /-- The tracked-IP map never exceeds its capacity (`max_tracked_ips`, but at least the requesting
 client itself), and holds one bucket per client: eviction really makes room. -/
 theorem tracked_clients_bounded (l : Limiter) (ip : Nat) (now : Rat)
